@@ -26,7 +26,7 @@ Import ListNotations. Open Scope Z_scope.
 Definition H (t c sh sm dh dm nb x : Z) : hdr := mkHdr t c sh sm dh dm nb x.
 Definition check_case (c : (Z * bool * list event) * list Z) : bool :=
   let '((lvl, tm, es), exp) := c in
-  zl_eqb (enc_res (run (mkConfig lvl tm) es)) exp.
+  zl_eqb (enc_res (run (mkConfig lvl tm) 400%nat es)) exp.
 """
 
 
